@@ -354,6 +354,49 @@ def _store_step(k1, k2, k3, sn1, sn2, sn3, x1, x2, x3, rc1, rc2, rc3, a1, a2, a3
 
 
 # ---------------------------------------------------------------------------
+# several STOREs while the observer is not listening: what it is told at its next sync point is the truth
+
+
+def store_seq_step(a1: int, a2: int, a3: int, f1: int, f2: int, f3: int, init: bool, idle: bool) -> bool:
+    """
+    pre: a1 == core.PARAMS["a1"] and 0 <= a2 <= 2 and 0 <= a3 <= 2 and 0 <= f1 <= 1 and 0 <= f2 <= 1 and 0 <= f3 <= 1
+    post: _
+    """
+    return held(_store_seq_step, locals())
+
+
+def _store_seq_step(a1, a2, a3, f1, f2, f3, init, idle):
+    from asimap.parse import StoreAction
+    from asv.refmodel import flags as RF
+    from asv.refmodel.view import parse_untagged
+
+    tag = "store_seq_step"
+    keys, uids = [2, 5], [3, 7]
+    state = {"Seen": {5}, "unseen": {2}, "flagged": {2} if init else set()}
+    srv = env.new_world()
+    mb = env.make_mailbox(srv, "inbox", keys, uids, state, contents=CONTENT[:2], mtimes=MT[:2])
+    me, pme = env.make_client(srv, "A")
+    obs, pob = env.make_client(srv, "B")
+    env.select(me, mb)
+    env.select(obs, mb)
+    obs.idling = idle
+    acts = [StoreAction.REPLACE_FLAGS, StoreAction.ADD_FLAGS, StoreAction.REMOVE_FLAGS]
+    fl = [["\\Flagged"], ["\\Seen"]]
+    n_stores = core.PARAMS.get("k", 3)
+    for a, f in list(zip((a1, a2, a3), (f1, f2, f3)))[:n_stores]:
+        run(mb.store([1], acts[a], list(fl[f]), dont_notify=me))
+    reached()
+    heard = pob.out if idle else obs.pending_notifications
+    evs = [parse_untagged(x) for x in heard]
+    told = [RF.from_wire(e[3]) for e in evs if e[0] == "fetch" and e[1] == 1]
+    actual = RF.from_sequences(set(mb.msg_sequences(2)))
+    pcheck("C04", len(told) >= 1, R("C04", f"{tag}/other_session_not_notified"), heard=heard)
+    pcheck("C04", told[-1] == actual, R("C04", f"{tag}/other_session_left_with_stale_flags"), told=sorted(told[-1]), actual=sorted(actual), heard=heard)
+    pcheck("C04", len(told) == n_stores, R("C04", f"{tag}/a_change_was_not_reported"), told=len(told), stores=n_stores, heard=heard)
+    mh_file_agrees(mb, "C04", tag)
+
+
+# ---------------------------------------------------------------------------
 # APPEND
 
 
